@@ -8,7 +8,7 @@ from sim.super_world import gen_super_script
 from ._pcommon import ASSUMPTIONS, COMPONENTS_REAL, COMPONENTS_STUB, Violation, simplifications, simulate  # noqa: F401
 
 ID = "C17"
-RUNS = {"quick": 40000, "thorough": 1500000}
+RUNS = {"quick": 60000, "thorough": 1500000}
 BUDGET_S = {"quick": 90, "thorough": 900}
 CHUNK = 256
 LIST_KEYS = ("events",)
